@@ -1869,6 +1869,9 @@ def gen_restriction(r, base, ev, name, pool):
             except Exception:
                 return False
         good = [x for x in good if all(exact32(tok) for tok in x.split(' '))]
+    if involves(base, ('dateTime', 'time')):
+        # facet literals: no hour 24 (the consistency of the derivation itself would hinge on KF-C09-05; test literals keep it)
+        good = [x for x in good if not re.search(r'(T|^| )24:', x)]
     if not good:
         return None
     facets = []
